@@ -230,6 +230,9 @@ func randCall(r *Rng, kind string) CallD {
 	switch kind {
 	case "Errors":
 		n := 1 + r.Intn(2)
+		if r.Chance(12) {
+			n = 0 // HandleErrors() with an empty list still is an error-handling registration
+		}
 		es := make([]ErrD, n)
 		for i := range es {
 			es[i] = randAtom(r)
@@ -240,6 +243,9 @@ func randCall(r *Rng, kind string) CallD {
 		return CallD{K: kind, Errs: es}
 	case "ErrorTypes":
 		n := 1 + r.Intn(2)
+		if r.Chance(12) {
+			n = 0
+		}
 		ts := make([]TgtD, n)
 		for i := range ts {
 			ts[i] = randTgt(r)
